@@ -1067,10 +1067,12 @@ def _nontrivial(case, res):
 
 
 def tie(ctx):
-    cases = corpus_cases() + callback_cases() + close_step_cases()
+    cases = corpus_cases() + first_packet_cases() + callback_cases() + close_step_cases()
+    for _ in range(ctx.scale(40, 800)):
+        cases.append(dict(gen_case(ctx.rng, ideal=ctx.rng.random() < 0.4), fresh=True))
     for _ in range(ctx.scale(1000, 20000)):
         cases.append(gen_case(ctx.rng, ideal=ctx.rng.random() < 0.4))
-    ress = [drv.run_events(c['events']) for c in cases]
+    ress = [drv.run_events(c['events'], fresh=bool(c.get('fresh'))) for c in cases]
     terms = [case_term(r['expanded']) for r in ress]
     exp = [impl_obs(r) for r in ress]
     B = 32
@@ -1159,7 +1161,7 @@ def tie(ctx):
             pass
         dis.append({'what': 'total disagreements', 'count': nd})
     seen, nontriv = set(), 0
-    dist = {'cases': len(cases), 'send_lock_scenarios': len(lcases), 'cases_differing_only_in_status_of_stale_timers': stale_only, 'ideal_timing': 0, 'racy_timing': 0, 'events': 0, 'timers': 0, 'transmissions': 0,
+    dist = {'cases': len(cases), 'cases_on_a_new_crazyflie_object': sum(1 for c in cases if c.get('fresh')), 'send_lock_scenarios': len(lcases), 'cases_differing_only_in_status_of_stale_timers': stale_only, 'ideal_timing': 0, 'racy_timing': 0, 'events': 0, 'timers': 0, 'transmissions': 0,
             'by_kind': {}}
     for c, r in zip(cases, ress):
         h = runner.sha(c)
@@ -1195,7 +1197,7 @@ def tie(ctx):
 
 # ------------------------------------------------------------------ oracle (property text; own bookkeeping, no model)
 def check_case(case):
-    return judge(case, case['events'], drv.run_events(case['events']))
+    return judge(case, case['events'], drv.run_events(case['events'], fresh=bool(case.get('fresh'))))
 
 
 def judge(case, events, res):
@@ -1406,6 +1408,26 @@ def close_step_cases():
     return out
 
 
+def first_packet_cases():
+    """The answer to a pending request is the FIRST packet received in a session — of a brand-new Crazyflie object (first
+    session: callback order of __init__) and of a used one, in the first and in a second session; the answer comes once."""
+    out = []
+    for fresh in (True, False):
+        for tmo in (None, 100, 50):
+            T = 200 if tmo is None else tmo
+            S = ['send', 0, 0x90, [5], [7], tmo]
+            ans = ['recv', 0x90, [7, 1]]
+            out.append({'events': [['open', True], S, ['advfire', T // 2], ans, ['advfire', 4 * T + 10]], 'ideal': True, 'fresh': fresh})
+            out.append({'events': [['open', True], S, ans, ['advfire', 3 * T]], 'ideal': True, 'fresh': fresh})
+            out.append({'events': [['open', True], ['close'], ['open', True], S, ['advfire', T], ans, ['advfire', 3 * T]],
+                        'ideal': True, 'fresh': fresh})
+            out.append({'events': [['open', True], S, ['send', 1, 0x90, [6], [7, 8], tmo], ['advfire', T],
+                                   ['recvcb', 0x90, [7, 8, 2], [[2, 0x90, [9], [3], tmo]]], ['advfire', 2 * T], ans, ['advfire', 2 * T]],
+                        'ideal': True, 'fresh': fresh})
+            out.append({'events': [['open', True], S, ['recv', 0x91, [7]], ans, ['advfire', 3 * T]], 'ideal': True, 'fresh': fresh})
+    return out
+
+
 def callback_cases():
     """Requests issued from inside the handler of a reply (ideal timing): follow-up with the same / another pattern, lost
     k times and then answered or never answered, chains of polls."""
@@ -1460,7 +1482,9 @@ def oracle(ctx, deep=False):
         if f and f['class'] not in {x['class'] for x in fails}:
             # shortest failing history first (enumeration is by length): no further shrinking needed
             fails.append(f)
-    cases = corpus_cases() + callback_cases() + close_step_cases() + list(enum_cases(ctx.scale(3, 5)))
+    cases = corpus_cases() + first_packet_cases() + callback_cases() + close_step_cases() + list(enum_cases(ctx.scale(3, 5)))
+    for _ in range(ctx.scale(60, 1200)):
+        cases.append(dict(gen_case(ctx.rng, ideal=ctx.rng.random() < 0.6), fresh=True))
     for _ in range(ctx.scale(4000, 80000) * (3 if deep else 1)):
         cases.append(gen_case(ctx.rng, ideal=ctx.rng.random() < 0.6))
     for c in cases:
